@@ -40,7 +40,11 @@ func c02(c *core.Ctx) {
 		spec := gen.MsgSpec{TID: r.TID(), Attrs: []ref.Attr{{Type: 0x8022, Value: []byte("abc")}, {Type: 0x8020, Value: []byte{0, 1, 2, 3, 4, 5, 6, 7}}}}
 		for lo := 0; lo < 256; lo++ {
 			spec.Type = uint16(i)<<8 | uint16(lo)
-			c02Judge(c, spec.Wire(), "typefield", false)
+			w := spec.Wire()
+			c02Judge(c, w, "typefield", false)
+			// no type value excuses a missing magic cookie
+			w[4+lo%4] ^= 1 << uint(lo%8)
+			c02Judge(c, w, "typefield-bad-cookie", false)
 		}
 	})
 	c.MarkExhaustive("typefield")
@@ -48,6 +52,21 @@ func c02(c *core.Ctx) {
 	c.Section("random", c.N(100000, 3000000), func(_ int64, r *gen.Rand) {
 		in := r.Hostile(seeds(), 4096)
 		c02Judge(c, in, "random", true)
+	})
+	// (d) the largest messages the length field can describe (65536..65552 bytes on the wire) and messages with
+	// thousands of attributes: size alone is no reason to reject or to forget attributes.
+	c.Section("near-max", c.N(160, 4000), func(i int64, r *gen.Rand) {
+		var in []byte
+		if i%2 == 0 {
+			in = r.WireDirty(r.NearMaxSpec())
+		} else {
+			s := r.Spec(0, 0)
+			for k := 900 + r.Intn(3000); k > 0; k-- {
+				s.Attrs = append(s.Attrs, ref.Attr{Type: r.AttrType(), Value: r.Bytes(r.Intn(5))})
+			}
+			in = r.WireDirty(s)
+		}
+		c02Judge(c, in, "near-max", false)
 	})
 }
 
@@ -257,6 +276,14 @@ func c02Lookups(c *core.Ctx, m *stun.Message, rm *ref.Msg, in []byte) {
 			// Get inside the callback must return this attribute
 			if gv, gerr := mm.Get(at); gerr != nil || !bytes.Equal(gv, cur.Value) {
 				bad = "Get inside callback"
+			}
+			// a nested ForEach (over another type) inside the callback is ordinary use and must restore its own view
+			if len(order) > 1 {
+				window := mm.Attributes
+				_ = mm.ForEach(stun.AttrType(order[(len(visited)+1)%len(order)]), func(*stun.Message) error { return nil })
+				if !sameAttrSlice(window, mm.Attributes) {
+					bad = "nested ForEach changed the outer callback's view"
+				}
 			}
 			visited = append(visited, idxs[k])
 
